@@ -558,3 +558,11 @@ def r16_4(ctx):
                       witness=["bb%d@%s" % (b2, ri.term(b2)["span"]["line"]) for b2 in sorted(reached)][:12])
     else:
         ctx.ok("the terminating line is re-queued on every path back to the loop head", site=ctx.site(ri, stores[0]))
+
+
+@rule("C16", "R16.5", floor=2)
+def r16_5(ctx):
+    """the write escape relies on the FIRST `TXTPP#` of a line being the directive marker (= C15 R15.4): text after it, including
+    further `TXTPP#`, is argument text"""
+    import rules_dir
+    rules_dir.r15_4(ctx)
